@@ -79,6 +79,10 @@ type Conn struct {
 	// a deadline which has passed stays passed until it is set anew: every
 	// further Read (Write) fails at once, as on a real connection
 	rdlExpired, wdlExpired bool
+	// event numbers at which the deadlines were set last: both directions use
+	// the same duration (PauseTimeout), so when a write deadline passes, a read
+	// deadline which was set before it has passed too
+	rdlSetSeq, wdlSetSeq int
 	rdlProg                int
 	wdlProg                int
 	closed                 bool
@@ -366,6 +370,9 @@ func (c *Conn) Write(p []byte) (n int, err error) {
 				continue // void: no progress since the deadline was set
 			}
 			c.wdlExpired = true
+			if c.rdl && c.rdlSetSeq < c.wdlSetSeq {
+				c.rdlExpired = true // armed earlier, for the same duration
+			}
 			return n, &timeoutError{"write"}
 		case WReset:
 			c.wfaults = append(c.wfaults[:fi], c.wfaults[fi+1:]...)
@@ -726,6 +733,7 @@ func (c *Conn) SetReadDeadline(t time.Time) error {
 	c.rdl = !t.IsZero()
 	c.rdlProg = 0
 	c.rdlExpired = false
+	c.rdlSetSeq = len(w.Log)
 	n := 0
 	if c.rdl {
 		n = 1
@@ -745,6 +753,7 @@ func (c *Conn) SetWriteDeadline(t time.Time) error {
 	c.wdl = !t.IsZero()
 	c.wdlProg = 0
 	c.wdlExpired = false
+	c.wdlSetSeq = len(w.Log)
 	n := 0
 	if c.wdl {
 		n = 1
